@@ -146,7 +146,7 @@ def stream_set(groups, quick_cfgs, thorough_cfgs, alias=None, scale=5):
     return f
 
 PROPS["C03"] = {
-    "translators": ["consts"],
+    "translators": ["consts", "asm2lean"],
     "lean_targets": ["JediVerif.Properties.C02"] + targets_if_exist("JediVerif.Properties.C03"),
     "theorems": lambda: thms("C03") + [t for t in module_theorems("JediVerif.Properties.C02", "Jedi.C02") if any(k in t[0] for k in ("bigint_", "fp_", "montgomery", "limbs_unique", "fq_", "fr_"))],
     "streams": stream_set([("asm", 10), ("bigint", 4), ("fp", 8)], ["asm", "asm+nobmi2", "portable64", "portable32"], ["asm", "asm+nobmi2", "asm-clang", "asm-O0", "portable64", "portable64-O0", "portable32", "portable32-O0", "asan", "asan-portable"], alias=None),
@@ -155,8 +155,8 @@ PROPS["C03"] = {
 }
 PROPS["C05"] = {
     "translators": ["consts", "tower"],
-    "lean_targets": prop_modules("C05") or ["JediVerif.Gen.CurveGen"],
-    "theorems": lambda: thms("C05"),
+    "lean_targets": (prop_modules("C05", extra=("JediVerif.Properties.C05b",)) or ["JediVerif.Gen.CurveGen"]),
+    "theorems": lambda: thms("C05", extra=(("JediVerif.Properties.C05b", "Jedi.C05"),)),
     "streams": stream_set([("curve", 6)], ["asm", "portable64"], ALLCFG + ["asan"], alias="none"),
 }
 PROPS["C06"] = {
@@ -167,14 +167,14 @@ PROPS["C06"] = {
 }
 PROPS["C07"] = {
     "translators": ["consts", "tower"],
-    "lean_targets": prop_modules("C07"),
-    "theorems": lambda: thms("C07"),
+    "lean_targets": prop_modules("C07", extra=("JediVerif.Properties.C07b",)),
+    "theorems": lambda: thms("C07", extra=(("JediVerif.Properties.C07b", "Jedi.C07"),)),
     "streams": stream_set([("gt", 8)], ["asm", "portable64"], ALLCFG),
 }
 PROPS["C01"] = {
     "translators": ["consts", "tower"],
-    "lean_targets": prop_modules("C01"),
-    "theorems": lambda: thms("C01"),
+    "lean_targets": prop_modules("C01", extra=("JediVerif.Properties.C01b", "JediVerif.Properties.C01c")),
+    "theorems": lambda: thms("C01", extra=(("JediVerif.Properties.C01b", "Jedi.C01"), ("JediVerif.Properties.C01c", "Jedi.C01"))),
     "streams": stream_set([("pairing", 6)], ["asm", "portable32"], ALLCFG, scale=3),
     "filter": lambda l: not l.startswith(("pairing_sum", "pairing_prep", "prepare")),
     "hypotheses": ["H-bilinear: the textbook optimal-ate function of Spec/Pairing.lean is bilinear and non-degenerate on G1 x G2 (Vercauteren 2010); not provable with the Lean libraries present"],
